@@ -613,7 +613,7 @@ func Decode(c2s, s2c []byte, o DecodeOpts) (*Session, error) {
 // records of one direction.
 func (s *Session) AuditNonces(d int) error {
 	seen := map[string]int{}
-	var prevLast []byte
+	var prevLast, prevIV []byte
 	var want uint64
 	first := true
 	for i, r := range s.Recs[d] {
@@ -635,6 +635,18 @@ func (s *Session) AuditNonces(d int) error {
 			}
 			want++
 		} else {
+			if prevIV != nil && len(prevIV) == len(r.Explicit) {
+				same := 0
+				for x := range prevIV {
+					if prevIV[x] == r.Explicit[x] {
+						same++
+					}
+				}
+				if same >= 6 {
+					return fmt.Errorf("direction %d record %d: %d of the %d explicit IV bytes equal the previous record's IV at the same positions (stale bytes, not fresh randomness)", d, i, same, len(prevIV))
+				}
+			}
+			prevIV = r.Explicit
 			k := string(r.Explicit)
 			if j, dup := seen[k]; dup {
 				return fmt.Errorf("direction %d: records %d and %d use the same explicit IV", d, j, i)
